@@ -10,6 +10,7 @@ import (
 	"context"
 	"errors"
 	"fmt"
+	"strings"
 	"math/rand"
 	"net"
 	"os"
@@ -167,6 +168,9 @@ func replayCacheCase(c *cacheCase, idx int, srv *dohServer, z *cacheZone, clock 
 			ctx, cancel := context.WithTimeout(context.Background(), 10*time.Second)
 			r, err := res.Resolve(ctx, op.K+".example")
 			cancel()
+			if envError(err) && !strings.Contains(err.Error(), "status code") {
+				return "ENV: " + err.Error()
+			}
 			z.mu.Lock()
 			nq := 0
 			for _, q := range z.queries {
@@ -218,7 +222,7 @@ func TestCacheHistories(t *testing.T) {
 	z := &cacheZone{}
 	srv := newDoHServer(z.answer)
 	defer srv.Close()
-	bad, n := 0, 0
+	bad, n, env := 0, 0, 0
 	for i := range cases {
 		if i%nshard != shard {
 			continue
@@ -233,6 +237,10 @@ func TestCacheHistories(t *testing.T) {
 			}()
 			d = replayCacheCase(&cases[i], i, srv, z, &clock)
 		}()
+		if strings.HasPrefix(d, "ENV: ") {
+			env++
+			continue
+		}
 		if d != "" {
 			bad++
 			if bad <= 30 {
@@ -240,7 +248,7 @@ func TestCacheHistories(t *testing.T) {
 			}
 		}
 	}
-	w.Write(Ev{"summary": true, "cases": n, "bad": bad})
+	w.Write(Ev{"summary": true, "cases": n, "bad": bad, "env": env})
 }
 
 // ---- (B) concurrent use
